@@ -1,34 +1,48 @@
 """C06 — gradients of eigenpairs and singular triplets are exact, including exact degeneracy.
 
 Task eig: symeig(A[, M]) with the operators built from *unconstrained dense leaf tensors* P (A = herm(P), all entries
-free, so the degeneracy-breaking directions of the gradient are observed); loss
+free and with a non-zero anti-Hermitian part, so the degeneracy-breaking directions of the gradient are observed); loss
 
     l = sum_b beta_b [ sum_i (w_i e_i + q_i e_i^2/2) + a_b + a_b c_b / 2 + 0.3 a_b sum_i w_i e_i ],
     a_b = sum_i u_i Re x_i^H W1 x_i,   c_b = sum_i v_i Re x_i^H W2 x_i            (W1, W2 Hermitian)
 
 with the weights w, q, u, v constant inside every group of exactly repeated eigenvalues: l then depends on the selected
 eigenvectors only through the projectors of the groups and on the eigenvalues of a group only through symmetric
-polynomials, i.e. it does not depend on the basis chosen inside a degenerate subspace, nor on phases/signs.
+polynomials, i.e. it does not depend on the basis chosen inside a degenerate subspace, nor on phases/signs, and its
+partial derivatives w.r.t. the eigenvalues are equal inside a group (both are needed for the gradient to exist).
 
 Oracle, first order (all cases): closed-form perturbation theory on an independent dense eigendecomposition
 (scipy.linalg.eigh of the dense A, M of every broadcast batch element), pbt/ref_c05.eig_pullback:
     d e_i = x_i^H (dA - e_i dM) x_i,
     d x_i = sum_{j not in group(i)} x_j x_j^H (dA - e_i dM) x_i / (e_i - e_j) - 1/2 sum_{j in group(i)} x_j x_j^H dM x_i,
 pulled back to the leaves by autograd through the (plain torch) construction of the dense matrices.  It needs only the
-gaps *between* groups, so it is valid at exact degeneracy.  It was cross-validated against central finite differences
-(degenerate cases) and is compared on every non-degenerate run with autograd through torch.linalg.eigh (self check).
-Second order: non-degenerate -> autograd twice through a Cholesky-reduced torch.linalg.eigh of the same dense
-matrices (contraction with random cotangents); degenerate inside the selected set -> central finite difference of the
-closed-form gradient along a random direction of leaf space against xitorch's double backward.
+gaps *between* groups, so it is valid at exact degeneracy.  It was cross-validated against central finite differences of the
+loss on scipy's eigenpairs (degenerate and non-degenerate cases) and is compared on every run whose spectrum is entirely simple
+with autograd through torch.linalg.eigh (self check; a disagreement is reported as discard `reference_self_check_failed`).
+Second order: entirely simple spectrum -> autograd twice through a Cholesky-reduced torch.linalg.eigh of the same dense
+matrices (contraction with random cotangents C); otherwise (torch's own double backward is wrong as soon as any two eigenvalues
+coincide) -> 4th-order central finite difference (h = min(1e-3, gap lmin / (160 (1 + spread))), i.e. 2h = 1/20 of the distance at which a gap
+could close) of <C, closed-form gradient> along a random unit direction D of leaf
+space against <D, xitorch's double backward of <C, g>>.
 
-Tolerance: 1e3 n eps cond(M) (spread/gap)^2 relative to (1 + |reference|_max), where gap is the smallest distance
-between different groups / to the unselected eigenvalues and spread = ||A||/lambda_min(M); davidson (min_eps 1e-10,
-returns by residual test or full space) adds 1e3 sqrt(n) min_eps spread / gap^2.  Second order: x10 (autograd reference), or
-1e-5 (finite-difference reference, step 1e-4: truncation ~ h^2 |l''''| and rounding ~ eps/h).
+Tolerance: tol = 1e3 n eps cond(M) max(spread/gap, 1)^2 relative to (1 + |reference|_max), where gap is the smallest distance
+between a selected eigenvalue and any different eigenvalue and spread = ||A||/lambda_min(M); davidson (min_eps 1e-10,
+returns by residual test or full space) adds 1e3 sqrt(n) min_eps spread / gap^2.  Second order: 10 tol (autograd reference), or
+1e3 tol + 10 (tol/1e3)/h + 3e-6 (finite-difference reference: truncation <= ~3e-7, rounding of the closed form divided by h).  The evidence labels err*/tol record the
+decade of the observed error/tolerance ratio (typically 1e-3 .. 1e-9).
 
-Task svd: svd(A) for dense leaf A (rectangular, real/complex), loss sum_i w_i s_i + q s_i^2/2 + Re tr(W U diag(h) Vh) with
-w, h constant inside groups of repeated singular values; reference torch.linalg.svd autograd (non-degenerate) and the
-closed form through the eigen-problem of A^H A / A A^H (degenerate), first and second order as above.
+Task svd: svd(A) for A built from dense leaves (rectangular, real/complex, operator kinds incl. matrix-free, adjoint, product), loss
+sum_i (w_i s_i + q_i s_i^2/2) + a + a c/2 + ..., a = sum_i h_i Re u_i^H W1 v_i, weights constant inside groups of repeated singular
+values.  Reference: the same closed form applied to the Jordan-Wielandt matrix [[0, A], [A^H, 0]] (eigenpairs (s_i, [u_i; v_i]/sqrt 2));
+second order by autograd through torch.linalg.svd (all singular values simple) or the finite-difference scheme above.
+
+Recorded findings (SITES; generated only when known_findings.json lists the site, otherwise avoided by construction):
+  second_order_at_degeneracy             second-order gradients are wrong by O(1) when a repeated eigenvalue lies in the selected set
+                                         (custom_exacteig, davidson) or anywhere in the spectrum (exacteig / default, which differentiates
+                                         the full decomposition): the first-order formulas drop the within-group block terms, whose
+                                         derivatives do not vanish.  First order is exact there.
+  svd_vectors_at_repeated_singular_values   svd forms the second factor as A v_i / s_i outside symeig, so the eigenvalue cotangents differ
+                                         inside a group and first-order gradients of vector-dependent losses are wrong by O(1).
 """
 from __future__ import annotations
 
@@ -41,27 +55,31 @@ from hypothesis import strategies as st
 
 from pbt import gen
 from pbt import ref_c05 as R
-from pbt.harness import Task, ok, violation, discard, xt_call
+from pbt.harness import Task, ok, violation, discard, xt_call, XitorchRaised
 
 PID = "C06"
 RULE = ("eig: pencils with prescribed spectra, gaps >= 0.3 between the selected set and the rest and between groups, inside the selected set "
         "separated or exactly repeated pairs/triples; leaves = full unconstrained dense matrices P (A = herm(P), M = herm(Pm)) held by dense, "
         "matrix-free (mv / mv+mm / full), sum, difference and scaled operators; methods exacteig / custom_exacteig / davidson(min_eps 1e-10); "
         "neig < n and = n, lowest / uppermost, M absent / present (cond <= 10), batch patterns of A and M, f64 / c128; bck_options "
-        "exactsolve or default; loss basis-independent by construction (see module docstring); order 1 and 2. svd: m,n <= 6. "
+        "exactsolve or default; 1 in 6 with exactly diagonal A and M; loss basis-independent by construction (see module docstring); order 1 and 2. "
+        "svd: m,n <= 6, tall/wide/square, operator kinds dense / matrix-free / adjoint / product / sum, singular values 0.6.. with gaps 0.3/0.5 "
+        "and exact repeats. "
         "Non-trivial = the reference gradient is non-zero and (neig < n or M given or a degenerate group is selected or order 2); "
         "distinct by canonical case.")
 ASSUMPTIONS = [
     "reference eigendecomposition: scipy.linalg.eigh (LAPACK) of the dense matrices built from the same leaves; closed-form first-order "
     "perturbation theory (ref_c05.eig_pullback) cross-validated against finite differences and, on every non-degenerate case, against "
     "autograd through torch.linalg.eigh",
-    "tolerance 1e3 n eps cond(M) (spread/gap)^2 (+ davidson: 1e3 sqrt(n) min_eps spread/gap^2) relative to 1 + max|reference|; second order x10 "
-    "or 1e-5 for the finite-difference reference",
+    "tolerance 1e3 n eps cond(M) max(spread/gap,1)^2 (+ davidson: 1e3 sqrt(n) min_eps spread/gap^2) relative to 1 + max|reference|; second order x10 "
+    "(autograd reference, entirely simple spectra) or x1000 + rounding/h + 3e-6 (4th-order finite difference of the closed-form gradient, step scaled to the gap)",
+    "second order at exact degeneracy and svd vector-dependent losses at repeated singular values are recorded findings (see SITES): avoided by "
+    "construction unless listed in known_findings.json",
     "a degenerate group never straddles the cut between selected and unselected eigenvalues (the selected subspace would be undefined)",
     "near-degenerate (gap 1e-3) spectra are not generated: the gradient is then legitimately of order 1/gap^2 and degen_rtol decides the branch",
     "backward linear solver: exactsolve (explicitly or as solve's default for dense / n <= 5 operators); Krylov backward solvers on the singular "
     "shifted system are not part of this check",
-    "davidson: real dtype, multiplicities <= neig (block-Krylov exhaustion is a recorded C05 finding)",
+    "davidson: real dtype; with exact repeats multiplicities <= neig and neig divides n (rank-deficient expansion blocks are a recorded C05 finding)",
 ]
 LEVEL_TEXT = ("Exploration against a closed-form perturbation-theory gradient evaluated on an independent LAPACK eigendecomposition, with the full "
               "dense matrix as leaf so that degeneracy-breaking directions are observable; second order against autograd-through-eigh or "
@@ -71,7 +89,8 @@ TECHNIQUE = "Hypothesis property-based testing: analytic-gradient oracle (pertur
 WALL = {"quick": 400, "thorough": 2400}
 
 EPS = R.EPS
-FD_H = 1e-4
+FD_H = 1e-3
+DAVIDSON_BREAKDOWN = "exception:_LinAlgError@xitorch/_utils/tensor.py:tallqr"     # forward failure recorded under C05
 
 
 # ------------------------------------------------------------------------------------------------ loss
@@ -210,7 +229,7 @@ def prepare_eig(case):
     method = case["method"]
     order = case["order"]
     labels = ["method=%s" % method, "mode=%s" % case["mode"], "M=%s" % (case["mop"] if hasM else "none"), "aop=%s" % case["aop"],
-              "dtype=%s" % case["dtype"], "degenerate=%s" % degenerate, "neig=%s" % ("full" if k == n else "partial"),
+              "dtype=%s" % case["dtype"], "degenerate=%s" % degenerate, "structure=%s" % case.get("structure", "generic"), "neig=%s" % ("full" if k == n else "partial"),
               "order=%d" % order, "bck=%s" % case["bck"], "batch=%dx%d" % (len(case["batchA"]), -1 if not hasM else len(case["batchM"])),
               "wrt=%s" % case["wrt"], "loss=%s" % ("values" if not case["use_vec"] else "values+vectors"),
               "maxgroup=%d" % max(gid.count(x) for x in set(gid))]
@@ -219,7 +238,8 @@ def prepare_eig(case):
         inside, outside = (lam[k - 1], lam[k]) if low else (lam[n - k], lam[n - k - 1])
         if inside == outside:
             return discard("group_straddles_cut", labels)
-    p = R.build_pencil(g, lam, dtype, case["batchA"], case["batchM"], case["mkappa"], avals=[1.0, 2.0], bvals=[0.0, -1.0, 1.0], mvals=[1.0, 0.5])
+    p = R.build_pencil(g, lam, dtype, case["batchA"], case["batchM"], case["mkappa"], avals=[1.0, 2.0], bvals=[0.0, -1.0, 1.0], mvals=[1.0, 0.5],
+                       structure=case.get("structure", "generic"))
     batch = p.batch
     # leaves: unconstrained dense matrices (an anti-Hermitian part is added: herm() inside the operators removes it)
     Aleaves = R.split_leaves(case["aop"], p.A, g)
@@ -281,7 +301,12 @@ def run_eig(case):
     loss, same, xi_loss, g = ns.loss, ns.same, ns.xi_loss, ns.g
     with warnings.catch_warnings(record=True) as wlist:
         warnings.simplefilter("always")
-        lx = xt_call(xi_loss, Aleaves + Mleaves, _where="forward")
+        try:
+            lx = xt_call(xi_loss, Aleaves + Mleaves, _where="forward")
+        except XitorchRaised as e:
+            if method == "davidson" and e.kind.startswith(DAVIDSON_BREAKDOWN):
+                return discard("forward_davidson_cholesky_breakdown(C05_finding)", labels)
+            raise
         warned = [w for w in wlist if "onverge" in type(w.message).__name__]
         if warned:
             return discard("forward_convergence_warning", labels)
@@ -293,7 +318,7 @@ def run_eig(case):
     gap = gap_lam * p.gapscale
     a_norm = max(float(torch.linalg.matrix_norm(p.A, 2).max()), R.leaves_scale(case["aop"], [t.detach() for t in Aleaves]))
     spread = max(a_norm / p.m_lmin, 1.0)
-    tol = 1e3 * n * EPS * p.m_kappa * (spread / gap) ** 2
+    tol = 1e3 * n * EPS * p.m_kappa * max(spread / gap, 1.0) ** 2
     if method == "davidson":
         tol += 1e3 * math.sqrt(n) * 1e-10 * spread / gap ** 2
     # ---------------------------------------------------------------- first order
@@ -310,8 +335,8 @@ def run_eig(case):
     refnz = any(maxabs(r) > 0 for r in ref)
     nontriv = refnz and (k < n or hasM or degenerate or order == 2)
     simple_all = len(set(lam)) == n
-    if not degenerate:
-        # self check of the oracle: closed form vs autograd through torch.linalg.eigh
+    if simple_all:
+        # self check of the oracle: closed form vs autograd through torch.linalg.eigh (whose backward needs *all* eigenvalues simple)
         lt = eigh_autograd_loss(loss, leaves_fn, Aleaves + Mleaves, batch, sel_idx)
         ref_t = torch.autograd.grad(lt, wrt, create_graph=(order == 2), allow_unused=True)
         ref_t = [torch.zeros_like(x) if r is None else r for r, x in zip(ref_t, wrt)]
@@ -359,14 +384,18 @@ def run_eig(case):
         Ad2, Md2 = leaves_fn([x.detach() for x in moved])
         r, _ = closed_form_grads(loss, Ad2, Md2, batch, sel_idx, same, leaves_fn, moved, w2)
         return float(contract(r))
-    fd = (cf_at(FD_H) - cf_at(-FD_H)) / (2 * FD_H)
+    # step: a leaf perturbation t D (|D| <= 1 per leaf) moves the dense A, M by <= 2t and a pencil eigenvalue by <= 2t (1 + spread)/lmin;
+    # the gradient is analytic in t until a gap closes, r = gap lmin / (4 (1 + spread)); 2h = r/20 keeps the 4th-order truncation
+    # error below ~3e-7 of the derivative, the rounding error is (tol/1e3)/h
+    fd_h = min(FD_H, gap * p.m_lmin / (160.0 * (1.0 + spread)))
+    fd = (-cf_at(2 * fd_h) + 8 * cf_at(fd_h) - 8 * cf_at(-fd_h) + cf_at(-2 * fd_h)) / (12 * fd_h)      # 4th-order central difference
     sx = 0.0
     for d, g2 in zip(D, got2):
         if g2 is not None:
             if not bool(torch.isfinite(g2.abs()).all()):
                 return violation("grad2_nonfinite", "second-order gradient is not finite" + info, labels)
             sx += float((d.conj() * g2).sum().real)
-    tol2 = 100 * tol + 1e-7 / gap ** 4
+    tol2 = 1e3 * tol + 10 * (tol / 1e3) / fd_h + 3e-6
     labels = labels + [margin_label("err2fd/tol", abs(sx - fd) / (tol2 * (1 + abs(fd))))]
     if not abs(sx - fd) <= tol2 * (1 + abs(fd)):
         return violation("grad2_degenerate", "directional second derivative <D, H C>: xitorch %.10g, finite difference of the closed-form gradient %.10g "
@@ -374,15 +403,206 @@ def run_eig(case):
     return ok(labels + ["ref2=fd_degenerate_selected" if degenerate else "ref2=fd_degenerate_unselected"], nontrivial=nontriv)
 
 
+
+# ------------------------------------------------------------------------------------------------ svd task
+
+class SvdLoss:
+    """l(S, U, V) for S (*batch,k), U (*batch,m,k), V (*batch,n,k): invariant under simultaneous phase changes of (u_i, v_i) and under
+    simultaneous rotations of the pairs of a group of repeated singular values"""
+    def __init__(self, g, gid, m, n, batch, dtype, use_vec=True):
+        self.w = group_weights(g, gid)
+        self.q = group_weights(g, gid)
+        self.h1 = group_weights(g, gid)
+        self.h2 = group_weights(g, gid)
+        self.W1 = gen.randn(g, (m, n), dtype)
+        self.W2 = gen.randn(g, (m, n), dtype)
+        self.beta = torch.rand(tuple(batch), generator=g, dtype=torch.float64) + 0.5
+        self.use_vec = use_vec
+
+    def __call__(self, S, U, V):
+        ls = (self.w * S + 0.5 * self.q * S * S).sum(-1)
+        if not self.use_vec:
+            return (self.beta * ls).sum()
+        t1 = torch.einsum("...ai,ab,...bi->...i", U.conj(), self.W1, V).real
+        t2 = torch.einsum("...ai,ab,...bi->...i", U.conj(), self.W2, V).real
+        a = (self.h1 * t1).sum(-1)
+        c = (self.h2 * t2).sum(-1)
+        return (self.beta * (ls + a + 0.5 * a * c + 0.3 * a * (self.w * S).sum(-1))).sum()
+
+
+def embed(A):
+    """Jordan-Wielandt matrix [[0, A], [A^H, 0]]: eigenpairs (+-s_i, [u_i; +-v_i]/sqrt 2) and |m-n| zeros"""
+    m, n = A.shape[-2:]
+    top = torch.cat([torch.zeros((*A.shape[:-2], m, m), dtype=A.dtype), A], dim=-1)
+    bot = torch.cat([R.ct(A), torch.zeros((*A.shape[:-2], n, n), dtype=A.dtype)], dim=-1)
+    return torch.cat([top, bot], dim=-2)
+
+
+def svd_second_order_degenerate(sv, k, mode, method):
+    r = len(sv)
+    kk = r if k is None else k
+    if method in ("exacteig", "default"):
+        return len(set(sv)) < r
+    sel = sv[:kk] if mode == "lowest" else sv[r - kk:]
+    return len(set(sel)) < len(sel)
+
+
+def run_svd(case):
+    import xitorch.linalg as xl
+    torch.manual_seed(case["seed"] & 0x7FFFFFFF)
+    g = gen.seeded(case["seed"])
+    dtype = R.DT[case["dtype"]]
+    m, n = case["m"], case["n"]
+    r = min(m, n)
+    sv = case["sv"]
+    batch = case["batch"]
+    k = r if case["k"] is None else case["k"]
+    low = case["mode"] == "lowest"
+    pos = list(range(k)) if low else list(range(r - k, r))            # positions among the ascending singular values
+    gid = group_ids([sv[i] for i in pos])
+    degenerate = len(set(gid)) < k
+    method, order = case["method"], case["order"]
+    kind = case["aop"]
+    labels = ["svd_method=%s" % method, "svd_mode=%s" % case["mode"], "svd_shape=%s" % ("tall" if m > n else ("wide" if m < n else "square")),
+              "svd_aop=%s" % kind, "svd_dtype=%s" % case["dtype"], "svd_degenerate=%s" % degenerate, "svd_k=%s" % ("full" if k == r else "partial"),
+              "svd_order=%d" % order, "svd_batch=%d" % len(batch), "svd_loss=%s" % ("values" if not case["use_vec"] else "values+vectors")]
+    if k < r:
+        inside, outside = (sv[k - 1], sv[k]) if low else (sv[r - k], sv[r - k - 1])
+        if inside == outside:
+            return discard("group_straddles_cut", labels)
+    U0 = R.rand_unitary(g, batch, m, dtype)[..., :, :r]
+    V0 = R.rand_unitary(g, batch, n, dtype)[..., :, :r]
+    sc = R.pick(g, [1.0, 1.5], batch)
+    S0 = sc[..., None] * torch.tensor(sv, dtype=torch.float64)
+    A0 = (U0 * S0.to(dtype)[..., None, :]) @ R.ct(V0)
+    leaves = [t.clone().requires_grad_() for t in R.split_leaves(kind, A0, g)]
+    names = ["A-leaf%d" % i for i in range(len(leaves))]
+    loss = SvdLoss(g, gid, m, n, batch, dtype, use_vec=case["use_vec"])
+    same = R.groups_of(gid)
+    kwargs = {"bck_options": {"method": "exactsolve"} if case["bck"] == "exactsolve" else {}}
+    if method != "default":
+        kwargs["method"] = method
+    if method == "davidson":
+        kwargs["min_eps"] = 1e-10
+
+    def xi_loss(lv):
+        Aop = R.make_operator(kind, lv, False)
+        U, S, Vh = xl.svd(Aop, case["k"], case["mode"], **kwargs)
+        return loss(S, U, R.ct(Vh))
+    with warnings.catch_warnings(record=True) as wlist:
+        warnings.simplefilter("always")
+        try:
+            lx = xt_call(xi_loss, leaves, _where="forward")
+        except XitorchRaised as e:
+            if method == "davidson" and e.kind.startswith(DAVIDSON_BREAKDOWN):
+                return discard("forward_davidson_cholesky_breakdown(C05_finding)", labels)
+            raise
+        if [w for w in wlist if "onverge" in type(w.message).__name__]:
+            return discard("forward_convergence_warning", labels)
+        if not lx.requires_grad:
+            return violation("no_graph", "loss of svd outputs does not require grad", labels)
+        got = xt_call(torch.autograd.grad, lx, leaves, create_graph=(order == 2), allow_unused=True, _where="backward")
+    # ---------------------------------------------------------------- reference through the Hermitian embedding
+    N = m + n
+    sel_idx = [N - r + i for i in pos]                       # +s_i are the r largest eigenvalues of the embedding, ascending
+    rt2 = math.sqrt(2.0)
+
+    def loss_H(E, Z):
+        return loss(E, rt2 * Z[..., :m, :], rt2 * Z[..., m:, :])
+
+    def leaves_fn(lv):
+        return embed(R.dense_of(kind, lv, False)), None
+    smin, smax = float(S0.min()), max(float(S0.max()), R.leaves_scale(kind, [t.detach() for t in leaves]))
+    scmin = float(sc.min())
+    gaps2 = [abs(sv[i] ** 2 - sv[j] ** 2) for i in pos for j in range(r) if sv[i] != sv[j]]
+    gap_e = (min(gaps2) if gaps2 else smin ** 2 / scmin ** 2) * scmin ** 2          # gap of the eigen-problem of A^H A actually solved
+    tol = 1e3 * max(m, n) * EPS * (smax / smin) ** 2 * max(smax ** 2 / gap_e, 1.0) ** 2
+    if method == "davidson":
+        tol += 1e3 * math.sqrt(max(m, n)) * 1e-10 * smax ** 2 / gap_e ** 2 / smin
+    Hd, _ = leaves_fn([t.detach() for t in leaves])
+    ref, lref = closed_form_grads(loss_H, Hd, None, batch, sel_idx, same, leaves_fn, leaves, leaves)
+    info = " [m=%d n=%d k=%d gap(s^2)=%.3g smin=%.3g smax=%.3g degenerate=%s]" % (m, n, k, gap_e, smin, smax, degenerate)
+    if not abs(float(lx) - lref) <= tol * (1 + abs(lref)):
+        return violation("loss_value", "loss on xitorch's singular triplets %.12g vs on the reference triplets %.12g (tol %.2e)%s" % (
+            float(lx), lref, tol, info), labels)
+    bad, worst = compare(got, ref, names, tol, "grad1", labels, info)
+    if bad is not None:
+        return bad
+    labels = labels + [margin_label("svd_err1/tol", worst)]
+    nontriv = any(maxabs(x) > 0 for x in ref) and (k < r or m != n or degenerate or order == 2)
+    simple_all = len(set(sv)) == r
+
+    def svd_autograd_loss(lv):
+        A = R.dense_of(kind, lv, False).expand(*batch, m, n)
+        U, S, Vh = torch.linalg.svd(A, full_matrices=False)
+        ps = torch.tensor([r - 1 - i for i in pos])              # torch orders descending
+        return loss(S[..., ps], U[..., :, ps], R.ct(Vh)[..., :, ps])
+    if simple_all:
+        lt = svd_autograd_loss(leaves)
+        ref_t = torch.autograd.grad(lt, leaves, create_graph=(order == 2), allow_unused=True)
+        ref_t = [torch.zeros_like(x) if q is None else q for q, x in zip(ref_t, leaves)]
+        for r1, r2 in zip(ref, ref_t):
+            if not maxabs(r1 - r2) <= tol * (1 + maxabs(r1)):
+                return discard("reference_self_check_failed", labels)
+    if order == 1:
+        return ok(labels, nontrivial=nontriv)
+    C = [gen.randn(g, x.shape, x.dtype) for x in leaves]
+
+    def contract(gs):
+        tot = 0.0
+        for c, gk in zip(C, gs):
+            if gk is not None:
+                tot = tot + (c.conj() * gk).sum().real
+        return tot
+    L1 = contract(got)
+    if not (isinstance(L1, torch.Tensor) and L1.requires_grad):
+        return violation("no_second_graph", "create_graph=True produced first-order gradients without a graph", labels)
+    with warnings.catch_warnings():
+        warnings.simplefilter("ignore")
+        got2 = xt_call(torch.autograd.grad, L1, leaves, allow_unused=True, _where="backward2")
+    if simple_all:
+        ref2 = torch.autograd.grad(contract(ref_t), leaves, allow_unused=True)
+        ref2 = [torch.zeros_like(x) if q is None else q for q, x in zip(ref2, leaves)]
+        bad, worst = compare(got2, ref2, names, 10 * tol, "grad2", labels, info)
+        if bad is not None:
+            return bad
+        return ok(labels + ["svd_ref2=autograd", margin_label("svd_err2/tol", worst)], nontrivial=nontriv)
+    D = [gen.randn(g, x.shape, x.dtype) for x in leaves]
+    D = [d / max(1.0, float(torch.linalg.vector_norm(d))) for d in D]
+
+    def cf_at(t):
+        moved = [(x.detach() + t * d).requires_grad_() for x, d in zip(leaves, D)]
+        H2, _ = leaves_fn([x.detach() for x in moved])
+        rr, _ = closed_form_grads(loss_H, H2, None, batch, sel_idx, same, leaves_fn, moved, moved)
+        return float(contract(rr))
+    # step as in run_eig: eigenvalues of the embedding move by <= 2t (1 + smax); gaps of +s_i to other s_j, to 0 and to -s
+    gaps1 = [abs(sv[i] - sv[j]) for i in pos for j in range(r) if sv[i] != sv[j]] + [sv[0]]
+    gap_h = min(gaps1) * scmin
+    fd_h = min(FD_H, gap_h / (160.0 * (1.0 + smax)))
+    fd = (-cf_at(2 * fd_h) + 8 * cf_at(fd_h) - 8 * cf_at(-fd_h) + cf_at(-2 * fd_h)) / (12 * fd_h)
+    sx = 0.0
+    for d, g2 in zip(D, got2):
+        if g2 is not None:
+            if not bool(torch.isfinite(g2.abs()).all()):
+                return violation("grad2_nonfinite", "second-order gradient is not finite" + info, labels)
+            sx += float((d.conj() * g2).sum().real)
+    tol2 = 1e3 * tol + 10 * (tol / 1e3) / fd_h + 3e-6
+    labels = labels + [margin_label("svd_err2fd/tol", abs(sx - fd) / (tol2 * (1 + abs(fd))))]
+    if not abs(sx - fd) <= tol2 * (1 + abs(fd)):
+        return violation("grad2_degenerate", "directional second derivative <D, H C>: xitorch %.10g, finite difference of the closed-form gradient %.10g "
+                         "(tol %.2e)%s" % (sx, fd, tol2 * (1 + abs(fd)), info), labels)
+    return ok(labels + ["svd_ref2=fd"], nontrivial=nontriv)
+
+
 # ------------------------------------------------------------------------------------------------ strategies
 
 @st.composite
-def grouped_spectrum_st(draw, n, maxmult=3):
+def grouped_spectrum_st(draw, n, maxmult=3, simple=False):
     """ascending eigenvalues: groups of exactly repeated values (sizes 1..maxmult) separated by gaps in {0.5, 1.0, 1.5} (>= 0.3)"""
     vals = []
     cur = draw(st.sampled_from([-3.0, -1.0, -0.25, 0.5]))
     while len(vals) < n:
-        size = draw(st.sampled_from([1, 1, 1, 2, 2, 3]))
+        size = 1 if simple else draw(st.sampled_from([1, 1, 1, 1, 2, 2, 3]))
         size = max(1, min(size, maxmult, n - len(vals)))
         vals += [cur] * size
         cur = cur + draw(st.sampled_from([0.5, 1.0, 1.5]))
@@ -410,13 +630,36 @@ def selected_degenerate(lam, neig, mode):
     return len(set(sel)) < len(sel)
 
 
+def second_order_degenerate(lam, neig, mode, method):
+    """region of the recorded finding: the second-order formulas drop the within-group block of the first-order changes.
+    Implicit backward (custom_exacteig, davidson): a repeated eigenvalue inside the selected set.  Dense path (exacteig, also the
+    default): a repeated eigenvalue anywhere, because the full decomposition is differentiated."""
+    if method in ("exacteig", "default"):
+        return len(set(lam)) < len(lam)
+    return selected_degenerate(lam, neig, mode)
+
+
 def _second_order_degenerate(case):
-    return "lam" in case and case.get("order") == 2 and selected_degenerate(case["lam"], case["neig"], case["mode"])
+    if "sv" in case:
+        return case.get("order") == 2 and svd_second_order_degenerate(case["sv"], case["k"], case["mode"], case["method"])
+    return "lam" in case and case.get("order") == 2 and second_order_degenerate(case["lam"], case["neig"], case["mode"], case["method"])
 
 
-# second-order gradients at an exact degeneracy inside the selected set are wrong for every method (recorded finding, no small
-# repair): generated only when known_findings.json lists this site, otherwise order 2 is drawn for non-degenerate selections only
-SITES = {"second_order_at_selected_degeneracy": _second_order_degenerate}
+# second-order gradients at an exact degeneracy are wrong (recorded finding, no small repair): generated only when
+# known_findings.json lists this site, otherwise order 2 is drawn outside this region only
+def _svd_vectors_degenerate(case):
+    """svd composes the second factor as A v_i / s_i outside symeig, so the cotangents of the eigenvalues of A^H A differ inside a group of
+    repeated singular values and the degenerate backward formula no longer applies: first-order gradients of basis-independent functions
+    of the singular vectors are wrong by O(1) (recorded finding, no small repair)"""
+    if "sv" not in case or not case.get("use_vec"):
+        return False
+    r = len(case["sv"])
+    k = r if case["k"] is None else case["k"]
+    sel = case["sv"][:k] if case["mode"] == "lowest" else case["sv"][r - k:]
+    return len(set(sel)) < len(sel)
+
+
+SITES = {"second_order_at_degeneracy": _second_order_degenerate, "svd_vectors_at_repeated_singular_values": _svd_vectors_degenerate}
 
 
 def _known_sites():
@@ -430,16 +673,20 @@ def eig_case_st(draw, tier="quick", known=()):
     n = draw(st.integers(2, 6 if tier == "quick" else 7))
     mode = draw(st.sampled_from(["lowest", "lowest", "uppest", "uppermost"]))
     low = mode == "lowest"
-    lam = draw(grouped_spectrum_st(n))
+    order = draw(st.sampled_from([1, 1, 2]))
+    # order 2 lies outside the recorded second-order finding only for (selected-)simple spectra: favour them by construction
+    lam = draw(grouped_spectrum_st(n, simple=(order == 2 and draw(st.sampled_from([True, True, False])))))
     ks = cut_choices(lam, low)
     if method == "davidson":
-        # block-Krylov exhaustion (recorded C05 finding): every multiplicity must be <= neig
+        # rank-deficient expansion blocks (recorded C05 finding, c05.rank_deficient_expansion_region): with exact repeats every
+        # multiplicity must be <= neig and neig must divide n (neig = n always qualifies)
         mm = 1
         run = 1
         for i in range(1, n):
             run = run + 1 if lam[i] == lam[i - 1] else 1
             mm = max(mm, run)
-        ks = [k for k in ks if k >= mm]
+        if mm > 1:
+            ks = [k for k in ks if k >= mm and n % k == 0]
     neig = draw(st.sampled_from(ks))
     if neig == n and draw(st.booleans()):
         neig = None
@@ -458,18 +705,62 @@ def eig_case_st(draw, tier="quick", known=()):
     bck = "exactsolve"
     if (alldense or n <= 5) and draw(st.booleans()):
         bck = "default"
-    order = draw(st.sampled_from([1, 1, 2]))
-    if order == 2 and selected_degenerate(lam, neig, mode):
-        if not ("second_order_at_selected_degeneracy" in known and draw(st.sampled_from([True, False, False, False]))):
+    if order == 2 and second_order_degenerate(lam, neig, mode, method):
+        if not ("second_order_at_degeneracy" in known and draw(st.sampled_from([True, False, False, False]))):
             order = 1
     return {"lam": lam, "dtype": dtype, "batchA": bA, "batchM": bM, "mkappa": draw(st.sampled_from([1.0, 2.0, 4.0, 10.0])),
             "aop": aop, "mop": mop, "method": method, "neig": neig, "mode": mode, "bck": bck,
+            "structure": draw(st.sampled_from(["generic"] * 5 + ["diag"])),
             "wrt": draw(st.sampled_from(["AM", "AM", "A", "M"])), "use_vec": draw(st.sampled_from([True, True, True, False])),
             "order": order, "seed": draw(st.integers(0, 2 ** 31 - 1))}
+
+
+@st.composite
+def svd_case_st(draw, tier="quick", known=()):
+    method = draw(st.sampled_from(["exacteig", "custom_exacteig", "custom_exacteig", "default", "davidson"]))
+    m, n = draw(st.integers(1, 6)), draw(st.integers(1, 6))
+    r = min(m, n)
+    mode = draw(st.sampled_from(["lowest", "uppest", "uppest", "uppermost"]))
+    order = draw(st.sampled_from([1, 1, 2]))
+    simple = order == 2 and draw(st.sampled_from([True, True, False]))
+    sv, cur = [], 0.6
+    while len(sv) < r:
+        size = 1 if simple else draw(st.sampled_from([1, 1, 1, 2, 2, 3]))
+        size = max(1, min(size, r - len(sv)))
+        sv += [cur] * size
+        cur = cur + draw(st.sampled_from([0.3, 0.5]))
+    ks = cut_choices(sv, mode == "lowest")
+    if method == "davidson":
+        mm, run = 1, 1
+        for i in range(1, r):
+            run = run + 1 if sv[i] == sv[i - 1] else 1
+            mm = max(mm, run)
+        if mm > 1:
+            ks = [k for k in ks if k >= mm and r % k == 0]
+    k = draw(st.sampled_from(ks))
+    if k == r and draw(st.booleans()):
+        k = None
+    if order == 2 and svd_second_order_degenerate(sv, k, mode, method):
+        if not ("second_order_at_degeneracy" in known and draw(st.sampled_from([True, False, False, False]))):
+            order = 1
+    rank = draw(st.sampled_from([0, 0, 0, 1, 2]))
+    batch = [draw(st.sampled_from([1, 2])) for _ in range(rank)]
+    aop = draw(st.sampled_from(R.GEN_KINDS))
+    bck = "exactsolve"
+    if (aop == "dense" or r <= 5) and draw(st.booleans()):
+        bck = "default"
+    case = {"m": m, "n": n, "sv": sv, "dtype": "f64" if method == "davidson" else draw(st.sampled_from(["f64", "c128"])), "batch": batch,
+            "aop": aop, "k": k, "mode": mode, "method": method, "bck": bck, "order": order,
+            "use_vec": draw(st.sampled_from([True, True, True, False])), "seed": draw(st.integers(0, 2 ** 31 - 1))}
+    if _svd_vectors_degenerate(case):
+        if not ("svd_vectors_at_repeated_singular_values" in known and draw(st.sampled_from([True, False, False, False]))):
+            case["use_vec"] = False          # repeated selected singular values: singular values only (see SITES)
+    return case
 
 
 def tasks(tier):
     known = _known_sites()
     return [
-        Task("eig", strategy=eig_case_st(tier, known=known), run=run_eig, examples={"quick": 1200, "thorough": 20000}),
+        Task("eig", strategy=eig_case_st(tier, known=known), run=run_eig, examples={"quick": 1200, "thorough": 64000}),
+        Task("svd", strategy=svd_case_st(tier, known=known), run=run_svd, examples={"quick": 600, "thorough": 32000}),
     ]
